@@ -39,11 +39,11 @@ ENS = "molli.chem.ensemble"
 
 def run(chk):
     prog = chk.prog
-    r1_uniform(chk)
-    r2_dihedral(chk)
-    r3_alignment(chk)
-    r4_views(chk)
-    r5_pure_helpers(chk)
+    chk.call(r1_uniform, chk)
+    chk.call(r2_dihedral, chk)
+    chk.call(r3_alignment, chk)
+    chk.call(r4_views, chk)
+    chk.call(r5_pure_helpers, chk)
 
 
 def _whole_array_update(f, param):
